@@ -96,7 +96,12 @@ def gen_stock_ops(rng, n):
             # entry is a function of the session's own schema (in the default recency order two sessions pressing it
             # alternately see each other's choices on the unchanged tree: shared by design, the switcher is outside the property)
             ops.append("key %d 5" % ord(rng.choice("112345")))
-        elif r < 0.93:
+        elif r < 0.90:
+            # input the recognizer tags `pinyin` / `cangjie` (set through the API: the prefixes are upper case): the second script
+            # translator answers and reverse_lookup_filter@cangjie_lookup writes the comments from the reverse db, one object
+            # shared by all sessions of the process; and the reverse lookup translator behind the grave accent
+            ops.append("input %s" % sc.hx(rng.choice(["P:ni", "P:hao;", "P:nihao", "P:zhongguo", "P:a", "C:a", "C:ab;", "`a", "`dd'"])))
+        elif r < 0.95:
             ops.append("read_commit")
         else:
             ops.append(rng.choice(["commit", "clear", "select_page 1", "page +"]))
@@ -250,18 +255,27 @@ def run(c):
     class Fresh(str):
         pass
 
+    # the same deployment with the switcher's schema list in its default (most recently used first) order: there the persisted
+    # recency decides what `.next`, `.default` and the switcher menu mean, and every schema change of any session updates it;
+    # used only for directed groups that touch none of those
+    tpl_mru = c1.make_full_workspace(os.path.join(c.work, "fws_tpl_mru"), user_dict=False, second_prism=True, fix_order=False)
+    sc.run_impl(exe, tpl_mru, _write(c, "warm2", "new\nschema vs_full\nnew\nschema vs_full2\n"))
+    shutil.rmtree(os.path.join(tpl_mru, "log"), ignore_errors=True)
+    cur_tpl = [tpl]
+
     def fresh():
         # every run starts from the same persisted settings (user.yaml of the template): hotkeys and schema changes save options
         fresh_n[0] += 1
         d = os.path.join(c.work, "fws%d" % fresh_n[0])
-        shutil.copytree(tpl, d)
+        shutil.copytree(cur_tpl[0], d)
         return d
     st["stock_groups"] = 0
     # directed: session 0 changes an option the switcher saves (through the API or the key binder's toggle) and changes schema
     # through the hotkey; session 1, created before, then changes schema through the hotkey too and is probed with
     # punctuation and a word — what 0 saved must not show up in 1
     probe = ["key 44 0", "read_commit", "key 46 0", "read_commit", "key 110 0", "key 105 0", "key 32 0", "read_commit",
-             "key 34 0", "read_commit", "key 47 0", "key 32 0", "read_commit"]
+             "key 34 0", "read_commit", "key 47 0", "key 32 0", "read_commit", "input %s" % sc.hx("P:nihao"), "key 32 0", "read_commit",
+             "input %s" % sc.hx("`a"), "clear"]
     directed = []
     for setter in (["option ascii_punct 1"], ["option full_shape 1"], ["key 51 5"], ["option ascii_punct 1", "option full_shape 1"],
                    ["option zh_simp 1", "key 52 5"]):
@@ -284,9 +298,20 @@ def run(c):
             ev = [("new", 0, first), ("new", 1, second)] + [("op", 0, x) for x in warm] + [("op", 1, x) for x in warm]
             ev += [("destroy", 1)] + [("op", 0, x) for x in probe] + [("op", 0, x) for x in ["key 104 0", "key 97 0", "key 111 0", "key 32 0", "read_commit"]]
             directed.append(ev)
+    # directed, on the deployment whose schema list is in most-recently-used order: a session asks for a schema that is not
+    # installed (or was removed) after ANOTHER session changed its schema — what it gets must not depend on that
+    mru_from = len(directed)
+    word = ["key 110 0", "key 105 0", "key 32 0", "read_commit", "key 97 0", "key 32 0", "read_commit", "key 44 0", "read_commit"]
+    for other in ("vs_script", "vs_full", "vs_full2"):
+        for wanted in ("nosuch", "vs_removed", "luna_pinyin"):
+            ev = [("new", 0, "vs_full"), ("new", 1, "vs_full"), ("op", 0, "schema %s" % other), ("op", 0, "key 97 0"), ("op", 0, "key 32 0"),
+                  ("op", 1, "schema %s" % wanted)] + [("op", 1, x) for x in word] + [("op", 0, x) for x in word]
+            ev += [("op", 0, "schema vs_full"), ("op", 1, "schema %s" % wanted)] + [("op", 1, x) for x in word]
+            directed.append(ev)
     n_groups = max(2, groups // 3)
     for g in range(len(directed) + n_groups):
         n_s = 3
+        cur_tpl[0] = tpl_mru if mru_from <= g < len(directed) else tpl
         if g < len(directed):
             events = directed[g]
         else:
@@ -332,7 +357,8 @@ def run(c):
         impl2 = [l for l in out2.splitlines() if l.startswith("ret=") or l.startswith("ids ")]
         st["stock_groups"] += 1
         st["events"] += len(index)
-        case = {"kind": "impl-violation", "schema": "vs_full", "table": [], "events": events}
+        case = {"kind": "impl-violation", "schema": "vs_full", "table": [], "events": events,
+                "schema_list_in_mru_order": cur_tpl[0] is tpl_mru}
         if rc or rc2:
             c.report("C16:crash", "multi-session script crashes", dict(case, log=(out if rc else out2)[-2000:]))
             continue
@@ -380,7 +406,8 @@ def replay(c, r):
     if r.get("schema") == "vs_full":
         # stock-component case: interleaved twice and the named session solo, each from a fresh copy of the deployed template
         from checks import c01_common as c1
-        tpl = c1.make_full_workspace(os.path.join(c.work, "fws_tpl"), user_dict=False, second_prism=True)
+        tpl = c1.make_full_workspace(os.path.join(c.work, "fws_tpl"), user_dict=False, second_prism=True,
+                                     fix_order=not r.get("schema_list_in_mru_order"))
         sc.run_impl(exe, tpl, _write(c, "warm", "new\nschema vs_full\nnew\nschema vs_full2\n"))
         runs = []
         events = [("snap", os.path.join(c.work, os.path.basename(e[1]))) if e[0] == "snap" else e for e in events]
